@@ -32,7 +32,7 @@ class Subchannels(DExplore):
                 out.append(("internal failure", "%s: %s %s: %s" % (s.name, e[0], e[1], e[2])))
         refusing = w._args[1][1] is not None
         for l in w.logged:
-            if refusing and l in ("CloseForMissingSubchannelError", "DataForMissingSubchannelError"):
+            if refusing and l.split(":")[0] in ("CloseForMissingSubchannelError", "DataForMissingSubchannelError"):
                 # the refusing side forgets the subchannel at once; the opener's answering CLOSE is then logged. Log noise, not an application-visible effect.
                 continue
             out.append(("error logged", l))
@@ -107,8 +107,24 @@ class IdParity(Job):
         return None
 
 
+# ---- full stack: expected_subprotocols goes through the real w.dilate() -> Boss.dilate -> Dilator.dilate -> Manager path
+from harness import fullstack as FS  # noqa: E402
+
+FS_CONFIGS = {
+    "fs-expected-p0-only": dict(app=True, expected=(None, ["p0"]), stoppable=False, max_mdrops=0),
+    "fs-normal-two-way": dict(app=True, both_write=True, stoppable=False, max_mdrops=0),
+}
+
+
+class FSubchannels(FS.FExplore):
+    configs = FS_CONFIGS
+
+    def violations(self, sim, when):
+        return Subchannels.violations(self, sim, when)
+
+
 def jobs(tier):
-    return [IdParity()] + make_jobs(Subchannels, tier, 2, 3) + make_drandom_jobs(Subchannels, tier)
+    return [IdParity()] + make_jobs(Subchannels, tier, 2, 3) + make_drandom_jobs(Subchannels, tier) + FS.make_jobs(FSubchannels, tier, 2, 3)
 
 
 ASSUMPTIONS = [
